@@ -20,9 +20,10 @@ func (fb *fileBuilder) printSection(typeName string, wrapper protoreflect.Descri
 
 	fb.leadingComments(sourceLocation)
 
-	if len(elements) == 0 && len(extensions) == 0 {
-		fb.p(typeName, " ", wrapper.Name(), " {}", inlineComment(sourceLocation))
-		fb.trailingComments(sourceLocation)
+	if len(elements) == 0 && len(extensions) == 0 && sourceLocation.TrailingComments == "" {
+		// A trailing comment belongs after the opening brace: behind '{}' it
+		// would not be attached to this element when the text is parsed again.
+		fb.p(typeName, " ", wrapper.Name(), " {}")
 		return nil
 	}
 
